@@ -570,6 +570,10 @@ class Node(object):
         individual_to_preempt.original_service_time = individual_to_preempt.service_time
         if self.priority_preempt == 'reroute':
             self.reroute(individual_to_preempt)
+            if server.cust is not False and server.cust is not next_individual:
+                # rerouted back to this node: its arrival has already given the freed server to the head of the queue
+                self.release_blocked_individual()
+                return
             if not next_individual.server:
                 self.number_in_service += 1
         else:
